@@ -360,3 +360,52 @@ def run(ck):
         adds = calls_named(par, "FilenameDistributor::<T>::add")
         ck.floor("C07-R5", "FilenameDistributor::add calls in the parallel driver", len(adds), 1)
         c06.related_names_registered(ck, par, adds, "C07-R5")
+        r6_every_usable_name_is_scheduled(ck, par)
+
+
+def r6_every_usable_name_is_scheduled(ck, par, rule="C07-R6"):
+    """The grouping can only tie together names it is told about.  Every name of a file patch the apply stage can end up patching
+    (the accessors of FilePatch that hand out a path and are used on the way from apply_one_file_patch to the file map) must be one the
+    scheduling code of the parallel driver reads as well."""
+    prog, cg = ck.prog, ck.cg
+    from ..facts import callee_of
+
+    def path_getters(fn_ids):
+        out = {}
+        for fid in fn_ids:
+            f = prog.fns.get(fid)
+            if f is None:
+                continue
+            for bb, t in f.calls():
+                rp = callee_of(t).get("rpath") or ""
+                g = prog.fns.get(rp)
+                if f.blocks[bb]["cleanup"] or g is None or "FilePatch::<" not in rp or g.arg_count != 1:
+                    continue
+                rty = g.local_ty(0)
+                if "std::path::Path" in rty and rty.startswith("core::option::Option<"):
+                    # the accessor stands for the field it hands out
+                    flds = [nm for b2, nm in df.adt_field_uses(g, "libpatch::patch::FilePatch") if nm in path_fields]
+                    out.setdefault(flds[0] if len(set(flds)) == 1 else rp.split("::")[-1], f.where(t))
+            # an accessor the rules do not know is folded into its caller: the field is then read directly
+            for b2, nm in df.adt_field_uses(f, "libpatch::patch::FilePatch"):
+                if nm in path_fields:
+                    out.setdefault(nm, f.where(f.blocks[b2]["term"]))
+        return out
+    adt = prog.adts.get("libpatch::patch::FilePatch")
+    path_fields = {fl["name"] for fl in adt["variants"][0]["fields"] if "std::path::Path" in fl["ty"]} if adt else set()
+    ck.floor(rule, "path-valued fields of FilePatch", len(path_fields), 2)
+    ao = ck.anchor("apply_one_file_patch")
+    if ao is None:
+        return
+    apply_scope = {f for f in cg.closure([ao.id]) if f.startswith("rapidquilt::apply::common") or f.startswith("<rapidquilt::apply::common")}
+    apply_scope |= {c.id for f in list(apply_scope) if f in prog.fns for c in prog.closures_of(prog.fns[f])}
+    used = path_getters(apply_scope)
+    sched_scope = {par.id} | {c.id for c in prog.closures_of(par)}
+    told = path_getters(sched_scope)
+    ck.floor(rule, "name accessors of a file patch used when applying it", len(used), 2)
+    missing = sorted(set(used) - set(told))
+    ck.require(not missing, rule, "every name the apply stage can patch under is read by the scheduling code",
+               "apply_one_file_patch (or what it calls) uses %s of a file patch, the scheduling code of the parallel driver reads only %s: a file "
+               "patch that ends up patching under such a name is queued on the worker of its other names, and another patch naming that file "
+               "can run on a different worker" % (", ".join("%s()" % m for m in missing), sorted(told)),
+               used[missing[0]] if missing else par.where(), ok_detail="applying uses %s; scheduling reads %s" % (sorted(used), sorted(told)))
